@@ -292,6 +292,7 @@ static void c16_case(uint64_t idx)
         }
         for (i = 0; i < (int)sizeof(decoy); ++i) decoy[i] = (uint8_t)(0x5A ^ (i * 13));
         am_add_decoy(decoy + 64);
+        if (vh_def_available() && cls <= 3) vh_make_undef(&A, sizeof(A));      /* definedness monitor: the caller's handle holds nothing the library may rely on */
         am_reset(); am_mark(0, 1);
         am_set_fail_at(k);
         snprintf(key, sizeof(key), "C16:%s:init-with-failing-allocation", nm); vh_set_crash_key(key);
@@ -300,6 +301,12 @@ static void c16_case(uint64_t idx)
         VH_COUNT("fault_cases", 1);
         { char cn[96]; snprintf(cn, sizeof(cn), "faults_%s%s_%s", c->name, par ? "-parallel" : "", vh_backend_names[be]); *vh_counter_ref(cn) += 1; }
         if (ret != 0) bad = "init-did-not-return-0";
+        if (vh_def_available() && cls <= 3) {
+            snprintf(key, sizeof(key), "%s:%s:handle-after-failed-init", prop, nm); vh_set_crash_key(key);
+            vh_check_defined("return-value", &ret, sizeof(ret));
+            vh_check_defined("handle-fields", &A, par ? sizeof(A) : 2 * sizeof(void *));
+            vh_make_def(&A, sizeof(A));
+        }
         /* battery of later calls on the object: all must be safe and report failure */
         snprintf(key, sizeof(key), "C16:%s:later-call-after-failed-init", nm); vh_set_crash_key(key);
         am_mark(0, 2);
